@@ -162,7 +162,7 @@ def roundtrip(text, desc):
         db2 = parse_database(t2)
         t3 = Encoder.encode_string(db2)
     except Exception as ex:  # noqa: BLE001
-        return [(dict(kind='print_parse_raises', exc=type(ex).__name__), desc, f'{desc}: print/parse raised {type(ex).__name__}: {str(ex)[:150]}')], None
+        return [(dict(kind='print_parse_raises', exc=common.exc_family(ex)), desc, f'{desc}: print/parse raised {type(ex).__name__}: {str(ex)[:150]}')], None
     if db1 != db2:
         viols.append((dict(kind='reparse_differs'), desc, f'{desc}: parse(print(db)) differs from db'))
     if t2 != t3:
@@ -192,7 +192,7 @@ def slices(db, desc, orig_model):
         import traceback
         where = traceback.extract_tb(ex.__traceback__)[-1].name
         nested = 'L4' in desc.get('lemmas', ())
-        return [(dict(kind='slicing_raises', exc=type(ex).__name__, where=where, nested_block=nested), desc,
+        return [(dict(kind='slicing_raises', exc=common.exc_family(ex), where=where, nested_block=nested), desc,
                  f'{desc}: slicing raised {type(ex).__name__} in {where}: {str(ex)[:120]}')], 0
     orig_flat = flat_statements(orig_model)
     orig_p = {s[1]: s for s in orig_flat if s[0] == 'p'}
